@@ -21,6 +21,22 @@ NOTES = {
  "C19": "PARTIAL: order-independence theorems; hash-seed / process independence is runtime behaviour decided by re-running under several PYTHONHASHSEED values",
  "C20": "find_node, ids, depth = longest path (all histories), is_subgraph model; summary() by recomputation",
 }
+# what is tied to the property by translation of the current source text (tools/py2coq*.py) in addition to the correspondence run
+TIED = {
+ "C02": "SuccessionDiagram.__init__, _expand_one_node, _ensure_node, _ensure_edge, _update_node_depth, node_successors, expand_bfs.py, expand_dfs.py and the public wrappers",
+ "C03": "expand_bfs.py, expand_dfs.py, expand_minimal_spaces.py, expand_attractor_seeds.py and the public wrappers",
+ "C04": "expand_bfs.py, expand_dfs.py, _expand_one_node, _ensure_node, node_successors",
+ "C05": "skip_to_minimal, skip_remaining, expand_minimal_spaces.py",
+ "C06": "space_utils.is_subspace / intersect, expand_to_target.py and its public wrapper",
+ "C10": "petri_net_translation.variable_to_place / place_to_variable",
+ "C11": "space_utils.percolate_space_strict / percolation_conflicts, drivers.find_single_node_LDOIs / find_single_drivers",
+ "C13": "the loops of expand_bfs.py, expand_dfs.py, expand_to_target.py, expand_minimal_spaces.py, expand_attractor_seeds.py",
+ "C14": "_expand_one_node, skip_to_minimal, skip_remaining, reclaim_node_data (cache clearing)",
+ "C15": "the limit handling of expand_bfs.py, expand_dfs.py, expand_to_target.py, expand_minimal_spaces.py, expand_attractor_seeds.py",
+ "C16": "SuccessionDiagram.__getstate__ / __setstate__, reclaim_node_data",
+ "C19": "_expand_one_node (sorting by key), expand_bfs.py, expand_dfs.py (sorted successors)",
+ "C20": "space_utils.space_unique_key, __init__, _ensure_node / _update_node_depth, depth, __len__, root, node_is_minimal",
+}
 checks = []
 for pid in sorted(props):
     if pid not in READY:
@@ -37,7 +53,8 @@ for pid in sorted(props):
             "text": "Machine-checked Coq theorems (coq/props/%s.v, closed under the global context) about a hand-written executable model of the code, for all networks, histories and tapes; the model is tied to /repo on every run by extracting it to OCaml and comparing it with the real library on the same inputs/op sequences, and the implementation's own outputs are judged by extracted, proved-exact predicates against brute-force ground truth. %s" % (pid, NOTES.get(pid, "")),
             "design_ref": "DESIGN.md section 7 (" + pid + ") and section 11"},
         "level_note": "Trusted: Coq kernel, extraction (ExtrOcamlBasic only), ocaml/driver.ml, the Python harness, engine contracts for clingo / biodivine_aeon (checked per recorded call, not proved); the model is hand-written, the correspondence run is the tie. Theorems quantify over all sizes; the correspondence run uses networks of at most 8 variables.",
-        "technique": "Coq proof over an executable model + differential correspondence (extracted OCaml vs code)",
+        "technique": "Coq proof over an executable model + differential correspondence (extracted OCaml vs code)" +
+                     ((" + translation of the current source text into Gallina, proved equal to the model: " + TIED[pid]) if pid in TIED else ""),
     })
 m = json.load(open("/verif/MANIFEST.json"))
 m["checks"] = checks
